@@ -223,6 +223,14 @@ func (x *exec) regionEffects(fn *ssa.Function, blocks map[*ssa.BasicBlock]bool, 
 			switch ins := ins.(type) {
 			case *ssa.Store:
 				x.addrEffect(ef, ins.Addr)
+			case *ssa.Send:
+				ef.calls["chan:send"] = true
+			case *ssa.Select:
+				ef.calls["chan:select"] = true
+			case *ssa.UnOp:
+				if ins.Op == token.ARROW {
+					ef.calls["chan:recv"] = true
+				}
 			case *ssa.MapUpdate:
 				mt := types.Unalias(ins.Map.Type()).Underlying().(*types.Map)
 				ef.keys["map<"+typeKey(mt.Key())+","+typeKey(mt.Elem())+">"] = true
@@ -567,6 +575,7 @@ func (x *exec) loopEnter(st *State, fr *Frame, lp *loop) bool {
 		}
 		n := e.ctx.Fresh("ncalls", bv64)
 		st.assume(smt.BVCmp("bvsge", n, zero64))
+		st.assume(smt.BVCmp("bvsle", n, smt.BVLit(1<<40, 64))) // call counts stay far below 2^63
 		st.callBase[k] = smt.BVBin("bvadd", x.callCount(st, k), n)
 		// drop concrete events for that key (their count is in the base now)
 		var kept []*Event
